@@ -159,7 +159,7 @@ class error_html(object):
         @param ele_list: list of formatted elements
         @rtype: string
         """
-        return seg_id + self.ele_term + seg_str(
+        return (seg_id or '') + self.ele_term + seg_str(
             ele_list, self.seg_term, self.ele_term,
             self.subele_term, self.eol)
 
